@@ -57,6 +57,7 @@ def build_jobs(tier):
         texts += F.f_rule_pairs(both, consts=[0, 1, F.MASK], contexts=("stack",))
         texts += F.f_mem((2,), deltas=[0, 1, 31, 32, 33])
         texts += F.f_mem((3,), deltas=[0, 16, 32], ops=("MSTORE", "MLOAD", "MSTORE8"))
+        texts += F.f_mem_byte_in_word()
         texts += F.f_exh(2)
     else:
         texts += F.f_rule_pairs(both, consts=F.K3, contexts=("stack", "consumed"), chains=(0, 1))
@@ -64,6 +65,7 @@ def build_jobs(tier):
         texts += F.f_mem((3,), deltas=[0, 1, 32], ops=("MSTORE", "MLOAD", "MSTORE8", "KECCAK256"))
         texts += F.f_mem((3,), deltas=[0, 32], ops=("SSTORE", "SLOAD"))
         texts += F.f_mem((2,), deltas=[0, 32], mixed=True)
+        texts += F.f_mem_byte_in_word(deltas=(0, 1, 16, 31, 32, 33))
         texts += F.f_exh(3)
     # MSIZE observes memory expansion: removing a dead load or hash before it is visible
     texts += ["PUSH ffff MLOAD POP MSIZE", "MSIZE PUSH ffff MLOAD POP MSIZE", "DUP1 MLOAD POP MSIZE", "PUSH 20 DUP2 KECCAK256 POP MSIZE",
